@@ -26,6 +26,30 @@ impl World for TW {
     }
 }
 
+/// a future that is woken by a timer thread, not by itself
+struct Park { done: std::sync::Arc<std::sync::atomic::AtomicBool>, started: bool, ms: u64 }
+impl Park {
+    fn new(ms: u64) -> Self { Self { done: std::sync::Arc::default(), started: false, ms } }
+}
+impl Future for Park {
+    type Output = ();
+    fn poll(mut self: Pin<&mut Self>, cx: &mut Context<'_>) -> Poll<()> {
+        if self.done.load(std::sync::atomic::Ordering::SeqCst) {
+            return Poll::Ready(());
+        }
+        if !self.started {
+            self.started = true;
+            let (done, waker, ms) = (std::sync::Arc::clone(&self.done), cx.waker().clone(), self.ms);
+            drop(std::thread::spawn(move || {
+                std::thread::sleep(std::time::Duration::from_millis(ms));
+                done.store(true, std::sync::atomic::Ordering::SeqCst);
+                waker.wake();
+            }));
+        }
+        Poll::Pending
+    }
+}
+
 struct YieldN(usize);
 impl Future for YieldN {
     type Output = ();
@@ -41,8 +65,9 @@ impl Future for YieldN {
 }
 
 thread_local! {
-    /// (scenario, step) -> (logs before await, yields, logs after await, fail on first attempt, text kind)
-    static PLAN: RefCell<HashMap<(usize, usize), (usize, usize, usize, bool, u8)>> = RefCell::new(HashMap::new());
+    /// (scenario, step) -> (logs before await, yields, logs after await, fail on first attempt, text kind,
+    /// ms to stay parked on a timer thread before doing anything)
+    static PLAN: RefCell<HashMap<(usize, usize), (usize, usize, usize, bool, u8, u64)>> = RefCell::new(HashMap::new());
     static SEEN: RefCell<HashMap<(usize, usize), usize>> = RefCell::new(HashMap::new());
     /// scenario -> (logs in the before hook, logs in the after hook)
     static HOOKS: RefCell<HashMap<usize, (usize, usize)>> = RefCell::new(HashMap::new());
@@ -101,8 +126,12 @@ fn step_fn(_: &mut TW, ctx: step::Context) -> LocalBoxFuture<'_, ()> {
         // text: "log <scen> <step>"
         let t: Vec<usize> = ctx.step.value.split(' ').skip(1).filter_map(|x| x.parse().ok()).collect();
         let (sc, st) = (t[0], t[1]);
-        let (before, yields, after, fail_once, kind) = PLAN.with(|p| p.borrow().get(&(sc, st)).copied().unwrap_or((0, 0, 0, false, 0)));
+        let (before, yields, after, fail_once, kind, park_ms) = PLAN.with(|p| p.borrow().get(&(sc, st)).copied().unwrap_or((0, 0, 0, false, 0, 0)));
         let nth = SEEN.with(|s| { let mut s = s.borrow_mut(); let e = s.entry((sc, st)).or_insert(0); *e += 1; *e });
+        if park_ms > 0 && nth == 1 {
+            // parked on a timer: this scenario is in flight but NOT woken by the executor's own polling
+            Park::new(park_ms).await;
+        }
         for k in 0..before {
             tracing::info!("L {sc} {st} {k}{}", tail(kind, k));
         }
@@ -163,7 +192,7 @@ pub fn child(seed: u64, mode: &str) {
     let mut rng = Rng::new(seed);
     let directed = mode != "rand";
     let nscen = if directed { 1 } else { rng.range(1, 12) };
-    let limit = *rng.pick(&[1usize, 2, 4, 12]);
+    let mut limit = *rng.pick(&[1usize, 2, 4, 12]);
     // run-wide modes
     let with_hooks = !directed && rng.chance(1, 2);
     let burst = !directed && rng.chance(1, 5);
@@ -173,6 +202,14 @@ pub fn child(seed: u64, mode: &str) {
     let mut hooks: HashMap<usize, (usize, usize)> = HashMap::new();
     // hand-off of a step span between the first two scenarios (they must run concurrently)
     let handoff = !directed && limit >= 2 && nscen >= 2 && rng.chance(1, 5);
+    // one scenario parked on a timer while the others run: the executor then polls the SAME scenario several
+    // times in a row without `forward_logs` in between
+    let parked_run = !directed && !handoff && limit >= 2 && nscen >= 2 && rng.chance(1, 4);
+    if parked_run {
+        // exactly one neighbour, and it is parked: `FuturesUnordered` then polls the running scenario again
+        // and again within ONE poll of `execute`, before `forward_logs` gets its next turn
+        limit = 2;
+    }
     let mut feats = vec![];
     let mut plan = HashMap::new();
     let mut expected: Vec<(usize, usize, usize)> = vec![];
@@ -184,7 +221,7 @@ pub fn child(seed: u64, mode: &str) {
         for _ in 0..(nscen / nfeat).max(1) {
             id += 1;
             let nsteps = rng.range(1, 3);
-            let fail_step = if rng.chance(1, 4) && !(handoff && id <= 2) { Some(rng.below(nsteps)) } else { None };
+            let fail_step = if rng.chance(if parked_run && id > 1 { 2 } else { 1 }, 4) && !(handoff && id <= 2) { Some(rng.below(nsteps)) } else { None };
             let mut steps = vec![];
             for st in 0..nsteps {
                 let (mut b, mut y, mut a) = (rng.below(3), rng.below(4), rng.below(3));
@@ -204,8 +241,14 @@ pub fn child(seed: u64, mode: &str) {
                     _ => 0,
                 };
                 if directed && b + a == 0 { b = 2; }
+                if parked_run && id > 1 && fail_step == Some(st) {
+                    // log and fail within one poll (no await point in between)
+                    if a == 0 { a = 1; }
+                    y = if rng.chance(1, 2) { 0 } else { 1 };
+                }
+                let park_ms: u64 = if parked_run && id == 1 && st == 0 { 40 } else { 0 };
                 if kind == 2 && b + a > 0 { marked.push((id, st)); }
-                plan.insert((id, st), (b, y, a, fail_step == Some(st), kind));
+                plan.insert((id, st), (b, y, a, fail_step == Some(st), kind, park_ms));
                 expected.push((id, st, b + a));
                 steps.push(StepSpec { ty: gherkin::StepType::Given, value: format!("log {id} {st}") });
             }
@@ -272,7 +315,7 @@ pub fn child(seed: u64, mode: &str) {
         show_list(&marked, |(s, st)| format!("{s} {st}")),
         show_list(&evs, |e| e.clone()),
     );
-    eprintln!("MODES hooks={with_hooks} burst={burst} outer={outer_span} marker={marker_run} handoff={}", HANDOFF.with(|h| h.borrow().is_some()));
+    eprintln!("MODES hooks={with_hooks} burst={burst} outer={outer_span} marker={marker_run} handoff={} parked={parked_run}", HANDOFF.with(|h| h.borrow().is_some()));
 }
 
 fn id_num(name: &str) -> String {
